@@ -993,6 +993,13 @@ func (r *RIB) canResolve(netInst string, candidate *aft.RIB) (bool, error) {
 		if len(g.NextHop) == 0 {
 			return false, fmt.Errorf("empty next-hop-group")
 		}
+		// An invalid member makes the whole group invalid, whichever member the (unordered)
+		// iteration below would reach first - check all of them before looking for unresolved ones.
+		for _, n := range g.NextHop {
+			if n.GetIndex() == 0 {
+				return false, fmt.Errorf("invalid zero index NH in NHG %d, NI %s", g.GetId(), netInst)
+			}
+		}
 		for _, n := range g.NextHop {
 			// Zero is an invalid value for a next-hop index. GetIndex() will also return 0
 			// if the NH index is nil, which is also invalid - so handle them together.
